@@ -270,20 +270,104 @@ Proof.
 Qed.
 
 (* ------------------------------------------------------------------ commands *)
-Lemma cmd_quiet name aliases shorts help m_sub i_sub run :
-  quietr run -> quiet (cmd_body name aliases shorts help false m_sub i_sub run).
+Lemma NH_set_scope s a b s' : set_scope s a b = Some s' -> NH s -> NH s'.
+Proof. intros E H. eapply (reach_NH (fun _ => True)); [eapply reach_scope; exact E|exact H]. Qed.
+
+Lemma cmd_quiet name aliases shorts help adjacent m_sub i_sub run :
+  quietr run -> quiet (cmd_body name aliases shorts help adjacent m_sub i_sub run).
 Proof.
   intros Hq s H. unfold cmd_body.
   pose proof (take_cmd_any_reach (fun _ => True) ((name :: aliases) ++ map utf8_encode_char shorts) s (fun _ _ => I)) as R.
   destruct (take_cmd_any _ s) as [hit s1]. cbn [snd] in R. destruct hit; [|exact I].
+  pose proof (reach_NH _ s s1 R H) as H1.
   destruct (current s1) as [cur|]; [|exact I].
   destruct (set_scope s1 cur (sc_end s1)) as [s2|] eqn:E2; [|exact I].
-  match goal with |- context [run ?x] => assert (H3 : NH x) end.
-  { eapply (reach_NH (fun _ => True)); [|exact H].
-    eapply reach_trans; [exact R|]. eapply reach_trans; [eapply reach_scope; exact E2|apply reach_path]. }
-  match goal with |- context [run ?x] => pose proof (Hq x H3) as Q; destruct (run x) as [r s4] end.
-  cbn [fst] in Q. destruct r as [v|f|w|]; try exact I. destruct f; try exact I; contradiction.
+  pose proof (NH_set_scope _ _ _ _ E2 H1) as H2.
+  assert (H3 : NH (set_path s2 (path s2 ++ [name]))) by exact H2.
+  set (s3 := set_path s2 (path s2 ++ [name])) in *.
+  destruct adjacent.
+  - destruct (adjacently_available_from s3 (S (sc_start s3))) as [a b].
+    destruct (set_scope s3 a b) as [s4|] eqn:E4; [|exact I].
+    pose proof (Hq s4 (NH_set_scope _ _ _ _ E4 H3)) as Q4.
+    destruct (run s4) as [[v|f|w|] s5]; cbn [fst okS] in Q4; try exact I.
+    + destruct (set_scope s5 (sc_start s3) (sc_end s3)); exact I.
+    + assert (Qf : okE (RErr (MsgParseFailure f))) by (destruct f; try exact I; contradiction).
+      destruct (adjacent_scope s5 s3) as [| |na nb]; [exact I|exact Qf|].
+      destruct (set_scope s3 na nb) as [o1|] eqn:E5; [|exact I].
+      destruct (run o1) as [[v|f'|w|] o2]; try exact I; [|exact Qf].
+      destruct (set_scope o2 (sc_start s3) (sc_end s3)); exact I.
+  - pose proof (Hq s3 H3) as Q. destruct (run s3) as [[v|f|w|] s4]; cbn [fst okS] in Q; try exact I.
+    destruct f; try exact I; contradiction.
 Qed.
+
+(* ------------------------------------------------------------------ adjacent groups *)
+Section Adj.
+Variable ev : evaluator.
+Hypothesis Hq : quiet ev.
+
+Definition stepq (st : adj_step) : Prop :=
+  match st with ANext b => okM (b_err b) | AStop r _ => okE r | AReturn _ _ => True end.
+
+Lemma adj_inner_quiet orig before : NH orig ->
+  forall fuel ta best, NH ta -> okM (b_err best) -> stepq (adj_inner ev orig before fuel ta best).
+Proof.
+  intros Ho. induction fuel as [|f IH]; intros ta best Ht Hb; [exact I|].
+  unfold adj_inner; fold adj_inner. pose proof (Hq ta Ht) as N.
+  destruct (ev ta) as [r ta1]. cbn [fst] in N. destruct r; try exact I.
+  - destruct (adjacent_scope ta1 orig) as [| |a b]; try exact I.
+    + destruct (set_scope ta1 _ _); exact I.
+    + destruct (set_scope orig a b) as [ta'|] eqn:E; [|exact I].
+      apply IH; [eapply NH_set_scope; eauto|exact Hb].
+  - destruct (Nat.ltb before (remaining ta1)); [exact I|].
+    destruct (Nat.ltb (b_consumed best) (before - remaining ta1)); [exact N|exact Hb].
+Qed.
+
+Lemma adj_try_quiet orig width start best : NH orig -> okM (b_err best) -> stepq (adj_try ev orig width start best).
+Proof.
+  intros Ho Hb. unfold adj_try.
+  destruct (set_scope orig start (length (items orig))) as [t0|] eqn:E0; [|exact I].
+  pose proof (NH_set_scope _ _ _ _ E0 Ho) as H0.
+  destruct (set_scope t0 start (start + width)) as [sc|] eqn:E1; [|exact I].
+  pose proof (NH_set_scope _ _ _ _ E1 H0) as H1.
+  destruct (Nat.eqb (remaining sc) 0); [exact Hb|].
+  pose proof (Hq sc H1) as N. destruct (ev sc) as [r0 sc']. cbn [fst] in N.
+  assert (Hgo : stepq (if Nat.eqb (remaining sc) (remaining sc') then ANext best
+                   else match set_scope t0 start (sc_end orig) with
+                        | None => AStop (RPanic P_set_scope) orig
+                        | Some this_arg1 =>
+                          match (if Nat.ltb (remaining this_arg1) (sc_end orig - start)
+                                 then let '(a, b) := adjacently_available_from this_arg1 start in set_scope this_arg1 a b
+                                 else Some this_arg1) with
+                          | None => AStop (RPanic P_set_scope) orig
+                          | Some this_arg2 => adj_inner ev orig (remaining this_arg1) (loop_fuel orig) this_arg2 best
+                          end
+                        end)).
+  { destruct (Nat.eqb (remaining sc) (remaining sc')); [exact Hb|].
+    destruct (set_scope t0 start (sc_end orig)) as [t1|] eqn:E2; [|exact I].
+    pose proof (NH_set_scope _ _ _ _ E2 H0) as H2.
+    destruct (Nat.ltb (remaining t1) (sc_end orig - start)).
+    - destruct (adjacently_available_from t1 start) as [a b].
+      destruct (set_scope t1 a b) as [t2|] eqn:E3; [|exact I].
+      apply adj_inner_quiet; [exact Ho|eapply NH_set_scope; eauto|exact Hb].
+    - apply adj_inner_quiet; [exact Ho|exact H2|exact Hb]. }
+  destruct r0; try exact I; exact Hgo.
+Qed.
+
+Lemma adj_outer_quiet orig width : NH orig -> forall starts best, okM (b_err best) ->
+  okE (fst (adj_outer ev orig width starts best)).
+Proof.
+  intros Ho. induction starts as [|st more IH]; intros best Hb; cbn [adj_outer];
+    [destruct (set_scope (b_args best) (sc_start orig) (sc_end orig)); [exact Hb|exact I]|].
+  pose proof (adj_try_quiet orig width st best Ho Hb) as N.
+  destruct (adj_try ev orig width st best) as [v s|b|r s]; cbn [fst stepq] in *; [exact I|apply IH; exact N|exact N].
+Qed.
+
+Lemma adjacent_quiet fi : quiet (eval_adjacent ev fi).
+Proof.
+  intros s H. unfold eval_adjacent. destruct fi as [it|]; [|exact I].
+  apply adj_outer_quiet; [exact H|exact I].
+Qed.
+End Adj.
 
 (* ------------------------------------------------------------------ every parser *)
 Lemma eval_keepsNH p : keepsNH (eval env p).
@@ -297,24 +381,24 @@ Proof.
   intros s Hs. eapply (reach_NH (fun _ => True)); [apply Hev|exact Hs].
 Qed.
 
-Theorem quiet_all :
-  (forall p, noadj p = true -> dinfo p -> quiet (eval env p)) /\
-  (forall ps, noadj_l ps = true -> dinfo_l ps -> Forall quiet (evals env ps)) /\
-  (forall o, noadj_o o = true -> dinfo_o o -> quietr (run_sub env o)).
+Theorem quiet_every :
+  (forall p, dinfo p -> quiet (eval env p)) /\
+  (forall ps, dinfo_l ps -> Forall quiet (evals env ps)) /\
+  (forall o, dinfo_o o -> quietr (run_sub env o)).
 Proof.
-  apply parser_plist_oparser_ind; intros; cbn [noadj noadj_l noadj_o dinfo dinfo_l dinfo_o] in *; try discriminate;
+  apply parser_plist_oparser_ind; intros; cbn [dinfo dinfo_l dinfo_o] in *;
     try (intros s; autorewrite with evaleq).
   - apply flag_quiet.
   - apply arg_quiet.
   - apply pos_quiet.
   - apply any_quiet.
-  - apply andb_prop in H0. destruct H0 as [Ha Hs]. destruct adjacent; [discriminate|].
-    apply cmd_quiet. apply H; assumption.
+  - apply cmd_quiet. apply H; assumption.
   - destruct fields as [|q1 [|q2 t]].
     + rewrite eval_PCon_nil. intros _. exact I.
-    + rewrite eval_PCon_one. specialize (H H0 H1). rewrite evals_cons in H. inversion H; subst. auto.
+    + rewrite eval_PCon_one. specialize (H H0). rewrite evals_cons in H. inversion H; subst. auto.
     + rewrite eval_PCon_many. apply con_quiet; [apply evals_keepsNH|apply H; assumption].
-  - apply andb_prop in H1. destruct H1. destruct H2. apply or_quiet; auto.
+  - apply adjacent_quiet. apply con_quiet; [apply evals_keepsNH|apply H; assumption].
+  - destruct H1. apply or_quiet; auto.
   - apply optional_quiet; [apply eval_keepsNH|auto].
   - apply many_quiet; [apply eval_keepsNH|auto].
   - apply some_quiet; [apply eval_keepsNH|auto].
@@ -334,10 +418,19 @@ Proof.
   - intros _. exact I.
   - apply H; auto.
   - rewrite evals_nil. constructor.
-  - apply andb_prop in H1. destruct H1. destruct H2. rewrite evals_cons. constructor; auto.
-  - destruct H1 as (Hd & Hn & Hv & Hh). intros Hs. rewrite run_sub_eq.
-    pose proof (H H0 Hd s Hs) as Q. pose proof (eval_keepsNH p s Hs) as K.
+  - destruct H1. rewrite evals_cons. constructor; auto.
+  - destruct H0 as (Hd & Hn & Hv & Hh). intros Hs. rewrite run_sub_eq.
+    pose proof (H Hd s Hs) as Q. pose proof (eval_keepsNH p s Hs) as K.
     destruct (eval env p s) as [r s1]. apply run_sub_body_quiet; assumption.
+Qed.
+
+(* the statement for definitions without `adjacent` (kept for the conventional fragment, ConvStderr.v) *)
+Theorem quiet_all :
+  (forall p, noadj p = true -> dinfo p -> quiet (eval env p)) /\
+  (forall ps, noadj_l ps = true -> dinfo_l ps -> Forall quiet (evals env ps)) /\
+  (forall o, noadj_o o = true -> dinfo_o o -> quietr (run_sub env o)).
+Proof.
+  repeat split; intros; [apply (proj1 quiet_every)|apply (proj1 (proj2 quiet_every))|apply (proj2 (proj2 quiet_every))]; assumption.
 Qed.
 End WithEnv.
 
@@ -358,18 +451,25 @@ Proof.
   - apply (H ix a Ha). rewrite Em. discriminate.
 Qed.
 
-(* no help flag on the line: a run of such a definition ends in a value or on stderr *)
-Theorem run_quiet feat env o name argv :
-  noadj_o o = true -> dinfo_o o ->
+(* no help flag on the line: a run of such a definition ends in a value or on stderr -- adjacent groups and adjacent
+   commands included *)
+Theorem run_quiet_every feat env o name argv :
+  dinfo_o o ->
   no_help_token (tokenize (fst (short_tables o)) (snd (short_tables o)) argv) ->
   match run_inner feat env o name argv with OutStdout _ | OutCompletion _ => False | _ => True end.
 Proof.
-  intros Hok Hd Hn. unfold run_inner, run_inner_state, initial_state.
+  intros Hd Hn. unfold run_inner, run_inner_state, initial_state.
   destruct (short_tables o) as [sf sa]. cbn [fst snd] in Hn.
   pose proof (construct_NH sf sa name argv Hn) as H.
   destruct (construct sf sa name argv) as [st amb]. cbn [fst] in H.
   destruct amb as [[ix sh]|]; [exact I|].
-  pose proof (proj2 (proj2 (quiet_all env)) o Hok Hd st H) as Q.
-  destruct (run_sub env o st) as [r s']. cbn [fst] in *. destruct r as [v|[h|c|m]|w|]; try contradiction; exact I.
+  pose proof (proj2 (proj2 (quiet_every env)) o Hd st H) as Q.
+  destruct (run_sub env o st) as [r s']. cbn [fst] in *. destruct r as [v|[h|c|m d]|w|]; try contradiction; exact I.
 Qed.
-Print Assumptions run_quiet.
+Print Assumptions run_quiet_every.
+
+Theorem run_quiet feat env o name argv :
+  noadj_o o = true -> dinfo_o o ->
+  no_help_token (tokenize (fst (short_tables o)) (snd (short_tables o)) argv) ->
+  match run_inner feat env o name argv with OutStdout _ | OutCompletion _ => False | _ => True end.
+Proof. intros _. apply run_quiet_every. Qed.
